@@ -1,0 +1,90 @@
+//! Verification hooks (compiled only with `--cfg xet_verif`).
+//!
+//! Everything in here is a no-op until a harness installs a [`Hooks`] object:
+//!  * `emit`   - one trace event, numbered with a process-wide sequence counter. Call sites place it at the
+//!    linearization point of the step they describe, i.e. after the state change and while still holding the lock
+//!    that protects it.
+//!  * `gate` / `agate` - schedule control points (blocking and async).  They are always placed outside locks.
+//!  * `crash_point` - called between two file-system effects of a write protocol.
+//!  * `clock`, `param` - overrides for the wall clock and for a few numeric parameters.
+use std::future::Future;
+use std::pin::Pin;
+use std::sync::atomic::{AtomicBool, AtomicU64, Ordering};
+use std::sync::{Arc, RwLock};
+
+pub trait Hooks: Send + Sync {
+    /// One event: `fields` is a JSON object body without the surrounding braces (may be empty).
+    fn event(&self, _seq: u64, _name: &str, _fields: &str) {}
+    fn gate(&self, _name: &str, _detail: &str) {}
+    fn agate<'a>(&'a self, _name: &'a str, _detail: &'a str) -> Pin<Box<dyn Future<Output = ()> + Send + 'a>> {
+        Box::pin(async {})
+    }
+    fn crash_point(&self, _name: &str, _detail: &str) {}
+    fn clock(&self) -> Option<u64> {
+        None
+    }
+    fn param(&self, _name: &str) -> Option<u64> {
+        None
+    }
+}
+
+static ENABLED: AtomicBool = AtomicBool::new(false);
+static SEQ: AtomicU64 = AtomicU64::new(0);
+static HOOKS: RwLock<Option<Arc<dyn Hooks>>> = RwLock::new(None);
+
+pub fn install(h: Arc<dyn Hooks>) {
+    *HOOKS.write().unwrap() = Some(h);
+    ENABLED.store(true, Ordering::SeqCst);
+}
+
+pub fn uninstall() {
+    ENABLED.store(false, Ordering::SeqCst);
+    *HOOKS.write().unwrap() = None;
+}
+
+#[inline]
+pub fn enabled() -> bool {
+    ENABLED.load(Ordering::Relaxed)
+}
+
+fn hooks() -> Option<Arc<dyn Hooks>> {
+    if !enabled() {
+        return None;
+    }
+    HOOKS.read().unwrap().clone()
+}
+
+/// Emits one event; `fields` is only evaluated when hooks are installed.
+pub fn emit(name: &str, fields: impl FnOnce() -> String) {
+    if let Some(h) = hooks() {
+        let f = fields();
+        let seq = SEQ.fetch_add(1, Ordering::SeqCst);
+        h.event(seq, name, &f);
+    }
+}
+
+pub fn gate(name: &str, detail: &str) {
+    if let Some(h) = hooks() {
+        h.gate(name, detail);
+    }
+}
+
+pub async fn agate(name: &str, detail: &str) {
+    if let Some(h) = hooks() {
+        h.agate(name, detail).await;
+    }
+}
+
+pub fn crash_point(name: &str, detail: &str) {
+    if let Some(h) = hooks() {
+        h.crash_point(name, detail);
+    }
+}
+
+pub fn clock() -> Option<u64> {
+    hooks().and_then(|h| h.clock())
+}
+
+pub fn param(name: &str) -> Option<u64> {
+    hooks().and_then(|h| h.param(name))
+}
